@@ -180,6 +180,29 @@ def replay_case(arg):
     for a, b in zip(t_in + o_in, times + obs):
         if not np.array_equal(a, b):
             fail('NoInputWrite', 'data_modified', None)
+    # ---- the optional outputs= argument: the same problem stated with the outputs listed in ANOTHER order (error models,
+    # observations and times listed accordingly) is the same bag of terms
+    if not fails and nout >= 2:
+        perm = list(np.roll(np.arange(nout), 1))
+        try:
+            mech_p = probes.ProbeMech(nmech, nout, tag=tag + 'p')
+            ems_p = [probes.error_model(kinds[q]) for q in perm]
+            with warnings.catch_warnings():
+                warnings.simplefilter('error', RuntimeWarning)
+                ll_p = chi.LogLikelihood(mech_p, ems_p, [obs[q].copy() for q in perm], [times[q].copy() for q in perm],
+                                         outputs=['Y%d' % (q + 1) for q in perm])
+                nerr = [len(s_) for s_ in slices]
+                th_p = np.concatenate([theta[:nmech]] + [theta[slices[q]] for q in perm])
+                v_p = ll_p(th_p.copy())
+                s_p = ll_p.evaluateS1(th_p.copy())[0]
+                pw_p = np.asarray(ll_p.compute_pointwise_ll(th_p.copy()), dtype=float)
+            cnt['evaluations'] = cnt.get('evaluations', 0) + 3
+            cnt['outputs_argument_permuted'] = 1
+            if not (interp.close(v_p, exp_total) and interp.close(s_p, exp_total) and interp.close(np.sum(pw_p), exp_total)):
+                fail('ExactlyOnce', 'outputs_argument_permuted', dict(got=[float(v_p), float(s_p), float(np.sum(pw_p))],
+                                                                       expected=exp_total, order=perm))
+        except Exception as e:
+            fail('Evaluable', type(e).__name__, dict(op='outputs= permuted', error=repr(e)))
     # ---- the caller's parameter buffer refilled IN PLACE with another point: the result follows the content ----------
     if not fails:
         theta2 = np.round(theta * (1.0 + 0.1 * rng.uniform(-1, 1, size=len(theta))), 4)
